@@ -7,6 +7,7 @@ table of CheckpointError.from_exception is compared exhaustively on a grid."""
 from __future__ import annotations
 
 import itertools
+import json
 
 from harness.backend import FakeBackend
 from harness.sim import Sim, SimAbort, patched
@@ -139,6 +140,10 @@ def behaviours():
 
     B.append(("ret:small", ret({"a": [1, 2]}), {"h": "returned", "jsonable": True, "large": False}, None))
     B.append(("ret:none", ret(None), {"h": "returned", "jsonable": True, "large": False}, None))
+    # legal JSON results a naive re-encoding could choke on: json.dumps coerces int/float/bool/None keys, also mixed at one level
+    for n_, v_ in enumerate([{1001: "a", "summary": "b"}, {"m": {None: 3, "eu": 1}}, [{True: 1, "x": [1.5, None]}, "r\u00e9sum\u00e9", "\udcff"],
+                             {"z": 1, "a": {"k": [], "b": {}}}, 0, "", [], 1.5e300]):
+        B.append((f"ret:json:{n_}", ret(v_), {"h": "returned", "jsonable": True, "large": False}, None))
     B.append(("ret:nonjson", ret({1, 2}), {"h": "returned", "jsonable": False, "large": False}, None))
     B.append(("ret:large", ret("x" * 300), {"h": "returned", "jsonable": True, "large": True}, 100))
     fam = {
@@ -229,6 +234,11 @@ def run(ctx):
             ctx.violate("C18.malformed_output", case, {"why": wf, "out": res.get("out")}, "wrapper")
         if res["leftover"]:
             ctx.violate("C18.background_thread_not_stopped", case, {"threads": res["leftover"]}, "wrapper")
+        if name.startswith("ret:json:") and name.endswith("|ok"):
+            want = dict((b[0], b[1]) for b in behaviours())[name.split("|")[0]](None, None)
+            o_ = res.get("out") or {}
+            if o_.get("Status") != "SUCCEEDED" or json.loads(o_.get("Result") or "null") != json.loads(json.dumps(want)):
+                ctx.violate("C18.json_result_not_returned_as_SUCCEEDED", case, {"out": o_, "handler_returned": repr(want)}, "wrapper")
         if got == "raise:source" and "other" not in name and "step-fault" not in name:
             ctx.violate("C18.raises_for_non_retry_error", case, {"raised": repr(res.get("raised"))}, "wrapper")
         cat = q.get("cat") if q.get("exc") in ("checkpoint", "bgCheckpoint") else (q.get("ckcat") if q.get("ck") == "failedCheckpoint" else None)
